@@ -76,6 +76,22 @@ class Model:
         else:
             d["f_tick"] = one(rest, "tick size field (the remaining OrderBook field)")
 
+    def deep_fields(self, adt_path, depth=2):
+        """{field name: type} of an ADT including the fields of its private same-crate struct fields (a maintainer may group
+        several private fields into a small private struct): names are the innermost field names"""
+        out = {}
+        crate = adt_path.split("::")[0]
+        for f in self.prog.adt_fields(adt_path):
+            ty = f["ty"]
+            base = ty.split("<")[0]
+            a = self.prog.adts.get(base)
+            if depth > 0 and a is not None and base.startswith(crate + "::") and a["kind"] == "struct" and not a.get("pub", False) and base != adt_path:
+                for k, v in self.deep_fields(base, depth - 1).items():
+                    out.setdefault(k, v)
+            else:
+                out.setdefault(f["name"], ty)
+        return out
+
     def market_books_field(self):
         """the field of Market holding the per-asset books (an array of OrderBook); its name is private"""
         fs = [f["name"] for f in self.prog.adt_fields(MARKET) if "OrderBook<" in f["ty"] and f["ty"].lstrip().startswith("[")]
